@@ -896,6 +896,14 @@ func checkC16(c *Ctx) {
 				}
 				cells = append(cells, &leafCase{leaf: lf, text: c.style(false).Render(lf), obj: obj})
 			}
+			if kind == "ver" {
+				// the literal's own text (parsed as a version many times by now) with malformed build metadata: not a version
+				lit := genLit(c.R, kind)
+				lf := &Node{T: NCmp, Path: []string{"x"}, Op: op, Lit: lit}
+				obj := avObj()
+				obj.Set("x", avStr(lit.Text+pick(c.R, []string{"+", "+a..b", "+x_y", "+a+b"})))
+				cells = append(cells, &leafCase{leaf: lf, text: c.style(false).Render(lf), obj: obj})
+			}
 		}
 	}
 	// the same cells behind paths of 2-4 segments with the attribute present, absent, or cut off by a missing or nil parent;
